@@ -241,6 +241,12 @@ func propC02(r *Run) {
 		}
 		if gl == 0 {
 			guest = gts.New(nil, nil, nil)
+			if r.rng.intn(2) == 0 {
+				// a guest WITHOUT residues that still carries a feature (a junction marker `0^1`): "every guest
+				// feature is present" holds for it too (seeded C02-l: an early return for an empty guest)
+				guest = gts.New(nil, gts.FeatureSlice{{Key: "misc_feature", Loc: gts.Between(0), Props: gts.Props{{"note", "junction"}}}}, nil)
+				r.count("seq.insert/empty guest with a feature")
+			}
 		} else {
 			guest = genSeq(r.rng, gl, 2, 1)
 		}
